@@ -2,6 +2,7 @@
 import Driver.Pure
 import Driver.MachineIO
 import Driver.ThreadsIO
+import Driver.GLoopIO
 
 open Lean Driver
 
@@ -14,7 +15,7 @@ def handle (line : String) : String :=
     | .ok op =>
       let r := match pureOp op j with
         | some r => some r
-        | none => if op = "machine" then some (opMachine j) else if op = "threads" then some (opThreads j) else none
+        | none => if op = "machine" then some (opMachine j) else if op = "threads" then some (opThreads j) else if op = "gflat" then some (opGFlat j) else none
       match r with
       | some (.ok r) => r.compress
       | some (.error e) => (Json.mkObj [("fatal", e)]).compress
